@@ -22,7 +22,9 @@ from hexital import Hexital  # noqa: E402
 ID = "C07"
 LEVEL = "exploration"
 CASE_TIMEOUT = 240
-RULE = ("case = (1 standalone indicator or 2-5 members in a Hexital, base or collapsing timeframe, optional HA). Histories n0..8n0 "
+RULE = ("case = (1 standalone indicator or 2-5 members in a Hexital, base or collapsing timeframe, optional HA; stream family walk / spiky / "
+        "never-moving / never-trading / unbroken up- or down-trend through the whole history, with Counter-over-streak member sets on the "
+        "latter so that a scan over a run would grow with n). Histories n0..8n0 "
         "(n0 = max(60, 3 x look-back); thorough 16n0) share the last 60 candles and the measured appends (3 singles + one chunk of 5). "
         "Oracle on logical events: W_calls and W_lines in indicator code at 8n0 <= 1.25 x at n0 + 40; per-class _calculate_reading entries "
         "equal; look-back depth equal; distinct candles read <= +2; chunk work <= 5 x single + 40. Candle-manager code is measured and "
@@ -37,7 +39,7 @@ MEASURED = 8
 def plan(tier):
     if tier == "thorough":
         return {"shards": 16, "cases": 1600, "shard_timeout_s": 3000, "shard_budget_s": 1500}
-    return {"shards": 16, "cases": 160, "shard_timeout_s": 900, "shard_budget_s": 150}
+    return {"shards": 16, "cases": 240, "shard_timeout_s": 900, "shard_budget_s": 150}
 
 
 def floors(tier):
@@ -57,9 +59,21 @@ def gen_case(rng, tier, idx):
     for m in members:
         if rng.random() < 0.5:
             m["kw"] = {kk: v for kk, v in m["kw"].items() if kk not in ("period",)} if m["cls"] not in ("Counter",) and rng.random() < 0.3 else m["kw"]
+    # whole-history stream conditions under which a data-dependent scan would grow with n: a market that never moves (TR, sigma
+    # exactly 0), never trades (volume 0), or trends without a break (unbroken Counter streaks / Supertrend direction)
+    family = rng.choice(["walk", "walk", "walk", "spiky", "flat", "zero_vol_all", "trend_up", "trend_down"])
+    if family in ("trend_up", "trend_down", "flat", "zero_vol_all") and rng.random() < 0.5:
+        p_ = rng.choice([3, 5, 7])
+        members = rng.choice([
+            [{"cls": "Supertrend", "kw": {"period": p_}}, {"cls": "Counter", "kw": {"input_value": f"Supertrend_{p_}.direction", "count_value": 1 if family != "trend_down" else -1}}],
+            [{"cls": "Amorph", "analysis": "positive", "kw": {}}, {"cls": "Counter", "kw": {"input_value": "positive", "count_value": family == "trend_up"}}],
+            [{"cls": "Counter", "kw": {"input_value": "volume", "count_value": 0}}],
+            [{"cls": "Amorph", "analysis": "rising", "kw": {"indicator": "close", "length": 2}}, {"cls": "Counter", "kw": {"input_value": "rising_2", "count_value": family == "trend_up"}}],
+        ])
+        k = len(members)
     tfkind = rng.choice(["base", "base", "collapse"])
     per_bucket = rng.choice([1, 2, 3]) if tfkind == "collapse" else 1
-    return {"members": members, "hexital": k > 1 or rng.random() < 0.2, "tfkind": tfkind, "per_bucket": per_bucket, "ha": rng.random() < 0.15,
+    return {"members": members, "hexital": k > 1 or rng.random() < 0.2, "tfkind": tfkind, "per_bucket": per_bucket, "ha": rng.random() < 0.15, "family": family,
             "seed": rng.randint(0, 10**9), "sizes": [1, 2, 4, 8] + ([16] if tier == "thorough" else [])}
 
 
@@ -70,10 +84,23 @@ def build_rows(case, n_buckets):
     tail_rows = (TAIL + MEASURED) * pb
     prefix_rows = max(0, n_buckets * pb - TAIL * pb)
     t0 = datetime(2023, 6, 1, 0, 0, 0) + timedelta(seconds=step)
+    fam = case.get("family", "walk")
     rt = random.Random(f"tail:{case['seed']}")
-    tail_pr = streams.prices(rt, tail_rows, "walk")
     rp = random.Random(f"prefix:{case['seed']}:{n_buckets}")
-    pre_pr = streams.prices(rp, prefix_rows, rp.choice(["walk", "spiky"]))
+    if fam in ("trend_up", "trend_down"):
+        # one unbroken trend through prefix and tail (the tail continues where the prefix ends)
+        allp = streams.prices(rt, prefix_rows + tail_rows, "trend_up")
+        if fam == "trend_down":
+            top = max(x[1] for x in allp) + 10.0
+            allp = [(round(top - o, 2), round(top - l, 2), round(top - h, 2), round(top - c, 2), v) for o, h, l, c, v in allp]
+        pre_pr, tail_pr = allp[:prefix_rows], allp[prefix_rows:]
+    else:
+        base = {"zero_vol_all": "walk"}.get(fam, fam)
+        tail_pr = streams.prices(rt, tail_rows, base)
+        pre_pr = streams.prices(rp, prefix_rows, base if base in ("flat",) else rp.choice(["walk", "spiky"]) if base in ("walk", "spiky") else base)
+        if fam == "zero_vol_all":
+            tail_pr = [(o, h, l, c, 0) for o, h, l, c, v in tail_pr]
+            pre_pr = [(o, h, l, c, 0) for o, h, l, c, v in pre_pr]
     ts = [t0 + timedelta(seconds=step * (i - prefix_rows)) for i in range(prefix_rows + tail_rows)]
     return streams.rows_from(pre_pr + tail_pr, ts), prefix_rows + TAIL * pb
 
@@ -96,7 +123,7 @@ def cls_of(c):
 def run_case(case):
     lb = max(configs.lookback(m) for m in case["members"])
     n0 = max(60, 3 * lb) + TAIL
-    stats = {"classes_seen": [cls_of(m) for m in case["members"]], "tfkinds": {case["tfkind"]: 1}}
+    stats = {"classes_seen": [cls_of(m) for m in case["members"]], "tfkinds": {case["tfkind"]: 1}, "families": {case.get("family", "walk"): 1}}
     viol = []
     per_size = {}
     pb = case["per_bucket"]
@@ -159,7 +186,7 @@ def run_case(case):
     stats["max:work_ratio_largest_vs_smallest"] = round(ratio_max, 3)
     stats["manager_lines_ratio_reported_only"] = {"le_1.25x": 1} if hi["singles"][0]["lines"]["manager"] <= 1.25 * lo["singles"][0]["lines"]["manager"] + 40 else {"grows": 1}
     nontrivial = all(sum(o["calc"].values()) >= 1 for o in hi["singles"])
-    sample = {"members": case["members"], "hexital": case["hexital"], "tfkind": case["tfkind"], "ha": case["ha"], "n0": n0,
+    sample = {"members": case["members"], "family": case.get("family"), "hexital": case["hexital"], "tfkind": case["tfkind"], "ha": case["ha"], "n0": n0,
               "per_size": {m_: {"history": v["history"], "single_calls": [o["calls"]["indicator"] for o in v["singles"]],
                                  "single_lines": [o["lines"]["indicator"] for o in v["singles"]], "manager_lines": [o["lines"]["manager"] for o in v["singles"]],
                                  "calc": v["singles"][0]["calc"], "depth": v["singles"][0]["depth"], "chunk_lines": v["chunk"]["lines"]["indicator"]}
